@@ -115,6 +115,18 @@ def gen_C01(rng, tier, cfg):
             ops.append("chacha seek %d u64 %d" % (slot, rng.choice([0, 37, 64, 2**32 * 64 - 40000])))
             ops.append("chacha applypat %d %d %d" % (slot, rng.choice([65536, 70001, 65600 + 255]), rng.below(1000)))
             stats["long_requests"] = stats.get("long_requests", 0) + 1
+            # the keystream after a REFUSED request: seek into the last block, ask for more than is left
+            # (error, data untouched), then read elsewhere — the bytes must still be the spec's bytes for
+            # this key and nonce (error-path state is part of "every position")
+            lim = limit(v)
+            k = 1 + rng.below(63)
+            ops.append(seek_op(rng, slot, lim - k))
+            ops.append("chacha applypat %d %d %d" % (slot, k + 1 + rng.below(300), rng.below(1000)))
+            ops.append(seek_op(rng, slot, rng.choice([0, 64, 100, rng.below(2**20)])))
+            ops.append("chacha applypat %d %d %d" % (slot, rng.choice([64, 100, 300]), rng.below(1000)))
+            ops.append(seek_op(rng, slot, lim - k))
+            ops.append("chacha applypat %d %d %d" % (slot, k, rng.below(1000)))
+            stats["after_refused_request"] = stats.get("after_refused_request", 0) + 1
     return ops, stats
 
 
@@ -306,11 +318,39 @@ def gen_C15(rng, tier, cfg):
         ops.append("guts new 0 %s %s" % (hx(bytes(key)), hx(bytes(nonce))))
         # second state differing in exactly one of the key/nonce words (or equal)
         k2, n2 = bytearray(key), bytearray(nonce)
-        which = rng.below(14)
+        which = rng.below(20)
+        nw = nl // 4
         if which < 8:
             k2[4 * which + rng.below(4)] ^= 1 << rng.below(8)
-        elif which < 8 + nl // 4:
+        elif which < 8 + nw:
             n2[4 * (which - 8) + rng.below(4)] ^= 1 << rng.below(8)
+        elif which >= 14:
+            # CORRELATED differences in several words (a comparison that folds per-word differences with
+            # xor/add instead of or, or compares a sum/hash of the words, only shows on these): the same
+            # xor mask in two or all nonce words, two words swapped, complement, rotate by one word,
+            # the same mask in a key word and a nonce word
+            mask = rng.choice([b"\x01\x00\x00\x00", b"\xff\xff\xff\xff", b"\x00\x00\x00\x80", struct_bytes(rng, 4)])
+            def xw(buf, w):
+                for t in range(4):
+                    buf[4 * w + t] ^= mask[t]
+            i, j = rng.below(nw), rng.below(nw)
+            if i == j:
+                j = (i + 1) % nw
+            if which == 14:
+                xw(n2, i); xw(n2, j)
+            elif which == 15:
+                for w in range(nw):
+                    xw(n2, w)
+            elif which == 16:
+                n2[4 * i:4 * i + 4], n2[4 * j:4 * j + 4] = n2[4 * j:4 * j + 4], n2[4 * i:4 * i + 4]
+            elif which == 17:
+                n2 = bytearray(n2[4:] + n2[:4])
+            elif which == 18:
+                xw(k2, rng.below(8)); xw(n2, i)
+            else:
+                a, b2 = rng.below(8), rng.below(8)
+                xw(k2, a); xw(k2, (b2 if b2 != a else (a + 1) % 8))
+            stats["correlated"] = stats.get("correlated", 0) + 1
         ops.append("guts new 1 %s %s" % (hx(bytes(k2)), hx(bytes(n2))))
         ops.append("guts eq32 0 1")
         ops.append("guts eq64 0 1")
